@@ -489,6 +489,9 @@ def main(tier):
     tlsrogue.rogue_content_dfs(ctx)     # rogue server varying ServerHello / EncryptedExtensions content
     tlsrogue.key_release_oracle(ctx)    # every traffic secret only while processing its authenticating message
     tlsrogue.refusal_oracle(ctx)        # a forged Finished / CertificateVerify is refused and changes nothing
+    tlsrogue.bad_certificate_refusals(ctx)   # genuine signature, unacceptable certificate; flight split at every byte
+    tlsrogue.binder_refusals(ctx)            # resumed ClientHello whose binder does not verify, early data on
+    tlsrogue.quic_binder_refusals(ctx)       # the same on real connections: 0-RTT receive keys never valid
     quic_app_data_before_finished(ctx)  # lost client Finished, 1-RTT packet arrives first
     quic_level_flights(ctx, thorough, rng.make("c11-quic"))
     ctx.notes["correspondence_mismatches"] = bad
@@ -520,7 +523,7 @@ def replay(path):
     if kind == "quic-early-1rtt":
         quic_app_data_before_finished(ctx, seeds=(rep["seed"],))
         ws = ctx.witnesses
-    elif kind in ("rogue", "genuine", "rogue-content", "key-release", "refusal"):
+    elif kind in ("rogue", "genuine", "rogue-content", "key-release", "refusal", "bad-cert-refusal", "binder-refusal", "quic-bad-cert-split", "quic-binder-refusal"):
         ws = tlsrogue.replay(rep)
         if d.get("signature", {}).get("oracle") == "legal-flight-refused" and not _completes(rep):
             ws = [{"what": d["what"]}]
